@@ -1,7 +1,7 @@
 (* C06 — equality is one coherent relation.  [equal] is the model of vm.equal (Interp/Equal.v);
    ==, !=, `in` and switch all go through it in the interpreter model. *)
 From Coq Require Import String List ZArith Bool Arith Floats.SpecFloat.
-From Anko Require Import Base.Int64 Base.F64 Env.EnvModel Interp.Ast Interp.Value Interp.ToX Interp.Equal Interp.Model
+From Anko Require Import Base.Int64 Base.F64 Env.EnvModel Base.Sexp Interp.Ast Interp.Value Interp.ToX Interp.Equal Interp.Model Interp.NumeralProofs
      Interp.EqualProofs.
 Import ListNotations.
 
@@ -92,7 +92,19 @@ Proof.
     intros [= <-]. exact E.
 Qed.
 
+(* the decimal spelling of any int64 is an integer numeral, so it equals the number it spells - in both
+   orders, for every int64 (decimal print / parse round trip: Base/DecimalProofs.v) *)
+Theorem spelled_number_equals_the_number : forall orc st z, in_int64b z = true ->
+  equal orc st (VStr (Z_to_string z)) (VInt z) = TOk true /\ equal orc st (VInt z) (VStr (Z_to_string z)) = TOk true.
+Proof.
+  intros orc st z Hz.
+  pose proof (str_numeral_roundtrip z Hz) as Hs.
+  destruct (eq_string_integer_numeral orc st (Z_to_string z) z z Hs) as [H1 H2].
+  rewrite Z.eqb_refl in H1, H2. split; assumption.
+Qed.
+
 Print Assumptions eq_symmetric.
+Print Assumptions spelled_number_equals_the_number.
 Print Assumptions neq_is_negation.
 Print Assumptions in_uses_equal.
 Print Assumptions switch_uses_equal.
